@@ -20,7 +20,7 @@ scenes={
  "C15":"definitions unique and unchanged, binding identity, one owner per provider, owner indexes, stored pricing = parse(published text), Validate() of stored records, by-service / by-owner listings exact for names that extend each other",
  "C16":"after the expiry block no request / response / marker of the batch; context removed exactly when finished; records of other batches untouched",
  "C17":"all 13 gRPC queries and their legacy (amino JSON) counterparts against the records installed, with existing and fresh arguments; request reconstruction field by field",
- "C18":"ID codecs: fixed length, round trip, injectivity for all 64/16-bit values and 40/32-byte hashes; key builders injective and every prefix scan exact (names of length 1-2 incl. prefixes of each other, 20-byte addresses; other address lengths = known finding F6); IDs assigned at issue and at call",
+ "C18":"ID codecs: fixed length, round trip, injectivity for all 64/16-bit values and 40/32-byte hashes; key builders injective and every prefix scan exact (names of length 1-2 incl. prefixes of each other, 20-byte addresses; the earnings scans over address pairs of 1-3 bytes where one begins with the other); IDs assigned at issue and at call",
  "C19":"zero-height preparation (refund of pending fees and earnings, escrow emptied, contexts paused), ValidateGenesis(Export) = nil, Init into a fresh chain and Export again equal, pricing and ownership indexes rebuilt; enum JSON forms round trip",
  "C20":"no panic in EndBlocker (batch start, expiry with slashing) and in the handler for every message accepted by ValidateBasic (all 14 types, incl. empty deposit lists); determinism by self-composition of EndBlocker with independent map iteration orders; SDK 255/315-bit range checks modelled for amounts a message can carry (incl. decimal price texts of any length); module-service calls",
 }
@@ -45,7 +45,7 @@ m={"version":1,
  "hooks":{"guard":"verif","enable":"no hooks: harnesses live in /verif/harness (own Go module with replace github.com/irismod/service => /repo); /repo is loaded from its working tree by go/packages on every run, nothing in /repo is built with a tag","baseline_off_cmd":"cd /repo && go test -vet=off -count=1 ./...","source_commits":[],"add_only":True},
  "engines":[{"name":"symgo","path":"/verif/symgo","serves_properties":[p['id'] for p in props],"kind_free_text":"bounded symbolic executor for go/ssa of the real module code -> SMT-LIB2 (z3 4.8.12 primary; z3 5.1.0 and cvc5 as fallback on unknown), path exploration by re-execution with decision prefixes on 16 workers, native replay of counterexamples and witnesses"}],
  "checks":checks,
- "notes":"Genuine defects found and repaired with fix: commits in /repo (F1-F5, F7-F16) and one recorded as known finding (F6) are listed in /verif/known_findings.json and DESIGN.md sections 8, 16, 18, 19. Exit codes: 0 held, 1 VIOLATION (reproduced natively), 2 inconclusive (never success).",
+ "notes":"Genuine defects found and repaired with fix: commits in /repo (F1-F21, F6 included; no open known finding) are listed in /verif/known_findings.json and DESIGN.md sections 8, 16, 18, 19. Exit codes: 0 held, 1 VIOLATION (reproduced natively), 2 inconclusive (never success).",
  "not_applicable":[]}
 json.dump(m,open('/verif/MANIFEST.json','w'),indent=1)
 print("ok",len(checks))
